@@ -77,8 +77,15 @@ def totalsIds (hist : List WriteOut) (ids : List Nat) : Totals :=
     least the bit-packing header byte -/
 def colNonEmpty (w : WriteOut) (c : Nat) : Bool := c ≥ 4 || !w.flows.isEmpty
 
-/-- the file operations of write-out `k` of `hist` when it starts in state `fs` (no fault) -/
-def program (hist : List WriteOut) (fs : Fs) (k : Nat) : List Op :=
+/-- number of payloads in column `c` that belong to committed blocks `ids` (= the committed offset) -/
+def keepLen (hist : List WriteOut) (ids : List Nat) (c : Nat) : Nat :=
+  (ids.filter fun i => match hist[i]? with | some w => colNonEmpty w c | none => false).length
+
+def freshDay (iface : String) (day : Int) : DayFs :=
+  { iface := iface, day := day, named := none, metaIds := none, cols := List.replicate 8 [], tmp := 0 }
+
+/-- operations before the commit point: directory creation, column appends, temp metadata file -/
+def preOps (hist : List WriteOut) (fs : Fs) (k : Nat) : List Op :=
   match hist[k]? with
   | none => []
   | some w =>
@@ -91,32 +98,45 @@ def program (hist : List WriteOut) (fs : Fs) (k : Nat) : List Op :=
       match existing with
       | some _ => []
       | none => mk w.iface "" ++ mk (w.iface ++ "/" ++ y) y ++ mk (w.iface ++ "/" ++ ym) ym ++ [.mkdir (ym ++ "/" ++ toString day)]
-    let committed := (existing.bind (·.metaIds)).getD []
-    let newTotals := totalsIds hist (committed ++ [k])
-    let rename : List Op := if (existing.bind (·.named)) = some newTotals then [] else [.renamedir]
     [.readdir monthOk] ++ mkdirs ++ [.openmeta (existing.bind (·.metaIds)).isSome] ++
     ((List.range 8).filter (colNonEmpty w)).flatMap (fun c => [.opencol c, .writecol c]) ++
-    [.opentmp, .writetmp, .chmod, .renamemeta] ++ rename ++ [.unlink, .unlink]
+    [.opentmp, .writetmp, .chmod]
 
-/-- effect of one operation of write-out `k`; `base` = ids committed when the writer opened the day -/
-def applyOp (hist : List WriteOut) (k : Nat) (base : List Nat) (fs : Fs) (op : Op) : Fs :=
+/-- operations after the commit point (`renamemeta`): directory rename if the summary changed, cleanup -/
+def postOps (hist : List WriteOut) (fs : Fs) (k : Nat) : List Op :=
   match hist[k]? with
-  | none => fs
+  | none => []
   | some w =>
-    let day := dayOf w.ts
-    let d := (fs.day? w.iface day).getD
-      { iface := w.iface, day := day, named := none, metaIds := none, cols := List.replicate 8 [], tmp := 0 }
-    match op with
-    | .mkdir rel =>
-      if rel == (yearMonth w.ts).2 ++ "/" ++ toString day then fs.setDay d
-      else { fs with dirs := fs.dirs ++ [if rel == "" then w.iface else w.iface ++ "/" ++ rel] }
-    | .writecol c =>
-      -- the writer seeks to the committed offset: whatever a crashed predecessor left there is overwritten
-      fs.setDay { d with cols := d.cols.mapIdx fun i ids => if i = c then ids.take base.length ++ [k] else ids }
-    | .opentmp => fs.setDay { d with tmp := d.tmp + 1 }
-    | .renamemeta => fs.setDay { d with metaIds := some (base ++ [k]), tmp := d.tmp - 1 }
-    | .renamedir => fs.setDay { d with named := some (totalsIds hist (d.metaIds.getD [])) }
-    | _ => fs
+    let existing := fs.day? w.iface (dayOf w.ts)
+    let committed := (existing.bind (·.metaIds)).getD []
+    let newTotals := totalsIds hist (committed ++ [k])
+    (if (existing.bind (·.named)) = some newTotals then [] else [.renamedir]) ++ [.unlink, .unlink]
+
+/-- the file operations of write-out `k` of `hist` when it starts in state `fs` (no fault) -/
+def program (hist : List WriteOut) (fs : Fs) (k : Nat) : List Op :=
+  match hist[k]? with
+  | none => []
+  | some _ => preOps hist fs k ++ [.renamemeta] ++ postOps hist fs k
+
+/-- effect of one operation of write-out `k` on its day directory;
+    `base` = ids committed when the writer opened the day -/
+def applyDay (hist : List WriteOut) (k : Nat) (base : List Nat) (d : DayFs) : Op → DayFs
+  | .writecol c =>
+    -- the writer seeks to the committed offset: whatever a crashed predecessor left there is overwritten
+    { d with cols := d.cols.mapIdx fun i ids => if i = c then ids.take (keepLen hist base c) ++ [k] else ids }
+  | .opentmp => { d with tmp := d.tmp + 1 }
+  | .renamemeta => { d with metaIds := some (base ++ [k]), tmp := d.tmp - 1 }
+  | .renamedir => { d with named := some (totalsIds hist (d.metaIds.getD [])) }
+  | _ => d
+
+def runDay (hist : List WriteOut) (k : Nat) (base : List Nat) (d : DayFs) (ops : List Op) : DayFs :=
+  ops.foldl (applyDay hist k base) d
+
+/-- ancestor directories created by the executed operations -/
+def newDirs (iface dayRel : String) (ops : List Op) : List String :=
+  ops.filterMap fun
+    | .mkdir rel => if rel == dayRel then none else some (if rel == "" then iface else iface ++ "/" ++ rel)
+    | _ => none
 
 def baseOf (hist : List WriteOut) (fs : Fs) (k : Nat) : List Nat :=
   match hist[k]? with
@@ -125,22 +145,47 @@ def baseOf (hist : List WriteOut) (fs : Fs) (k : Nat) : List Nat :=
 
 /-- run write-out `k`, killed before its `n`-th operation (`n ≥` number of ops = runs to completion) -/
 def runWriteOut (hist : List WriteOut) (fs : Fs) (k : Nat) (n : Nat) : Fs :=
-  let base := baseOf hist fs k
-  ((program hist fs k).take n).foldl (applyOp hist k base) fs
+  match hist[k]? with
+  | none => fs
+  | some w =>
+    let day := dayOf w.ts
+    let dayRel := (yearMonth w.ts).2 ++ "/" ++ toString day
+    let ops := (program hist fs k).take n
+    let existing := fs.day? w.iface day
+    let created := existing.isSome || ops.contains (.mkdir dayRel)
+    let fs1 := { fs with dirs := fs.dirs ++ newDirs w.iface dayRel ops }
+    if created then fs1.setDay (runDay hist k (baseOf hist fs k) (existing.getD (freshDay w.iface day)) ops) else fs1
 
 /-! ### readers -/
 
 def ifacesOf (fs : Fs) : List String :=
   (fs.dirs.filter fun p => !p.contains '/').eraseDups
 
-/-- blocks a query over the whole time range returns: all ids of every day that has metadata
-    (a day directory without `.blockmeta` is skipped by `walkDB`) -/
-def queryIds (fs : Fs) : List Nat := fs.days.flatMap fun d => d.metaIds.getD []
+/-- block number `i` of a day is readable iff every column that holds data for it stores that
+    write-out's payload at the block's position -/
+def blockReadable (hist : List WriteOut) (d : DayFs) (ids : List Nat) (i : Nat) : Bool :=
+  match ids[i]? with
+  | none => false
+  | some id =>
+    match hist[id]? with
+    | none => false
+    | some w => (List.range 8).all fun c =>
+        !colNonEmpty w c || ((d.cols.getD c [])[keepLen hist (ids.take i) c]? == some id)
+
+/-- blocks a query over the whole time range returns: the readable blocks of every day that has
+    metadata (a day directory without `.blockmeta` is skipped by `walkDB`; an unreadable block is
+    skipped and counted as corrupt) -/
+def dayQueryIds (hist : List WriteOut) (d : DayFs) : List Nat :=
+  match d.metaIds with
+  | none => []
+  | some ids => (List.range ids.length).filterMap fun i => if blockReadable hist d ids i then ids[i]? else none
+
+def queryIds (hist : List WriteOut) (fs : Fs) : List Nat := fs.days.flatMap (dayQueryIds hist)
 
 def queryView (hist : List WriteOut) (fs : Fs) : String :=
   -- without any interface directory the engine refuses the query ("no interfaces")
   if (ifacesOf fs).isEmpty then "err:iface" else
-  renderQuery ((queryIds fs).filterMap fun i => hist[i]?)
+  renderQuery ((queryIds hist fs).filterMap fun i => hist[i]?)
 
 /-- `ReadMetadata` over the whole range: a day's totals come from the directory name when it carries
     a summary, from `.blockmeta` otherwise -/
